@@ -101,7 +101,7 @@ prop("C33",
 
 
 prop("C04",
-     units=["atomic", "modelatomic", "renamesheet", "cols", "rows", "uisel", "styles", "record"],
+     units=["atomic", "modelatomic", "renamesheet", "cols", "rows", "uisel", "styles", "record", "defnames"],
      scans=["history-writers"],
      level="proof",
      claim="each user-model operation under contract (list in coverage.functions_under_contract: 25 operations incl. the bulk width/height/hidden setters and the "
@@ -255,12 +255,13 @@ prop("C30",
 
 
 prop("C32",
-     units=["renamedn"],
+     units=["renamedn", "defnames"],
      level="proof",
      claim="slice: renaming a defined name rewrites, in a formula tree, exactly the uses of THAT name — same scope, any letter case — to the new name and leaves every "
            "other name (other scope, other spelling) alone; every composite node (operators, function calls, comparisons, unary, implicit intersection, spill "
            "operator, LAMBDA definitions and calls) hands the same (name, scope, new name) to all its children, so no use is missed "
-           "(rename_defined_name_in_node, arm by arm)",
+           "(rename_defined_name_in_node, arm by arm); Model::new_defined_name appends exactly one entry and Model::delete_defined_name removes exactly the entry "
+           "with that name (any case) and scope: every other defined name keeps its name, scope and stored formula, and a failed call leaves the workbook as it was",
      assumptions=["str::to_lowercase is a function of the text (uninterpreted `lower`); String equality as vstd models it",
                   "the match in rename_defined_name_in_node dispatches each node kind to the arm extracted for it (arms are extracted one by one)"],
      residual="that Model::update_defined_name applies the traversal to every formula of every sheet and re-parses; values before/after; stability under sheet "
